@@ -22,7 +22,7 @@ def pick(rnd, i):
 
 CHECK = ComponentCheck("C15", pick, tiers={"quick": (64, 400)}, embedded=(("WideFifo",), ("wide_measurer", "fifo_measurer")), suite=(("WideFifo",), ("test/lib/test_fifo.py", "test/lib/test_metrics.py")))
 shards, run_shard = CHECK.shards, CHECK.run_shard
-RULE = ("[plus a second workload: WideFifo instances embedded in the FIFO latency measurers, watched passively (vf/passive.py) against the same reference model: readiness, results and state registers every cycle, conditions embedded:*] histories = hostile random read(count)/peek/write(count[,max_count])/clear sequences over all read_width x write_width in 1..4, "
+RULE = ("[in 30% of the histories every provided exclusive method has a second, competing caller transaction: a request is issued by the main caller, the rival or both; condition exclusive_method_serves_at_most_one_caller_per_cycle] [plus a second workload: WideFifo instances embedded in the FIFO latency measurers, watched passively (vf/passive.py) against the same reference model: readiness, results and state registers every cycle, conditions embedded:*] histories = hostile random read(count)/peek/write(count[,max_count])/clear sequences over all read_width x write_width in 1..4, "
         "depth a multiple of max(rw,ww) up to 16, both write_max_count settings, with stimulus modes full-width reads, exact-fit writes, "
         "max-width writes; non-trivial distinct case = (config, tag set among read+write / clamped read / exact-fit write / clear+write, level)")
 ASSUMPTIONS = ["array slots beyond the returned count are unspecified and not compared", "count <= max_count respected by the stimulus (asserted by the component itself)"]
